@@ -1,4 +1,5 @@
 import Ftp.Model.Observers
+import Ftp.Model.Client
 /-
   C14, re-entrant removal: "An observer that has been removed receives nothing further" when the removal happens from
   inside a callback, while a notification round is in progress.  Model: `Ftp.Observers.round` (the range-for over the
@@ -13,6 +14,14 @@ theorem round_without_removals (obs : List Nat) : round (fun _ => []) obs [] = o
   induction obs with
   | nil => rfl
   | cons o rest ih => simp [round, ih]
+
+/-- the notification primitive of the client model (`Ftp.Client.forObservers`, through which every observer event of
+    every operation is emitted) is one such round without removals over the observers registered at that moment -/
+theorem forObservers_is_a_round (f : Nat → Ftp.Client.Ev) (w : Ftp.Client.World) :
+    Ftp.Client.forObservers f w =
+      (.ok (), { w with trace := w.trace ++ (round (fun _ => []) w.observers []).map f }) := by
+  rw [round_without_removals]
+  rfl
 
 /-- nobody who was unregistered before his turn is called -/
 theorem round_skips_dead (kills : Nat → List Nat) (obs dead : List Nat) (x : Nat) (hx : x ∈ dead) :
